@@ -108,6 +108,28 @@ func execRec(args []string) string {
 	return out
 }
 
+// rec2: args as rec.  The Record has been used before (it holds the address and three names of an earlier
+// line) when the line is given to it.  For an accepted line, and for one rejected at a name, it holds
+// exactly what a fresh Record would hold; what it holds after the other rejections is not specified
+// and not shown.
+func execRec2(args []string) string {
+	line := UnH(args[0])
+	rec := &hostsfile.Record{}
+	if err := rec.UnmarshalText([]byte("9.9.9.9 old1.example old2.example old3.example")); err != nil {
+		return "SETUP-FAILED"
+	}
+	err := rec.UnmarshalText(line)
+	for i := range line {
+		line[i] = '#'
+	}
+	switch c := classifyRecErr(err); c {
+	case "nil", "name":
+		return showRecord(rec) + " err=" + c
+	default:
+		return "addr=? names=? err=" + c
+	}
+}
+
 var hostsAddrFields = []string{"1.2.3.4", "::1", "fe80::1%eth0", "::ffff:1.2.3.4", "0.0.0.0", "256.1.1.1", "1.2.3", "localhost", "01.2.3.4", "1:2:3:4:5:6:7:8",
 	"FE80::A", "0:0:0:0:0:0:0:1", "::ffff:102:304", "1.2.3.4%eth0", "", "fe80::1%", "[::1]"}
 var hostsNameFields = []string{"a", "host.example", "a-b.c", "_srv.example", "a_b.example", "-a.example", "ex.123", strings.Repeat("a", 63) + ".com", strings.Repeat("a", 64) + ".com",
@@ -117,6 +139,9 @@ func genC07(g *G) {
 	seps := []string{" ", "\t", "  ", " \t "}
 	emit := func(line string) {
 		g.Emit("rec", HS(line), oracleTable(fieldsOf(line)))
+		if g.Rnd.IntN(5) == 0 {
+			g.Emit("rec2", HS(line), oracleTable(fieldsOf(line)))
+		}
 	}
 	pick := func(xs []string) string { return xs[g.Rnd.IntN(len(xs))] }
 	// all lines of <= k fields over a field alphabet x separators
@@ -198,7 +223,7 @@ func genC07(g *G) {
 func init() {
 	properties["C07"] = &Property{
 		Gen:  genC07,
-		Exec: map[string]Executor{"rec": execRec},
+		Exec: map[string]Executor{"rec": execRec, "rec2": execRec2},
 		Nontrivial: func(fn string, args []string, obs string) bool {
 			return !strings.Contains(obs, "err=empty") && !strings.Contains(obs, "err=nohosts") // at least two fields
 		},
